@@ -35,8 +35,8 @@ def cases(tier, seed):
 
 def gen_distribution(rng, d, allow_normal=True):
     """returns (distribution infos list, a, b, kind)"""
-    kind = rng.choice(["uniform", "uniform_mixed_bounds", "triangle", "normal", "triangle_mixed", "normal_mixed"] if allow_normal
-                      else ["uniform", "uniform_mixed_bounds", "triangle", "triangle_mixed"])
+    kind = rng.choice(["uniform", "uniform_mixed_bounds", "triangle", "normal", "triangle_mixed", "normal_mixed", "triangle_mixed_bounds"]
+                      if allow_normal else ["uniform", "uniform_mixed_bounds", "triangle", "triangle_mixed", "triangle_mixed_bounds"])
     if kind == "uniform":
         lo = rng.choice([0.0, -1.0, rng.uniform(-3, 3)])
         hi = lo + rng.choice([1.0, 2.0, rng.uniform(0.2, 5)])
@@ -54,6 +54,11 @@ def gen_distribution(rng, d, allow_normal=True):
         lo = rng.choice([0.0, rng.uniform(-2, 2)])
         hi = lo + rng.choice([1.0, 2.0, rng.uniform(0.5, 4)])
         return [("Triangle", float(lo + rng.uniform(0.15, 0.85) * (hi - lo))) for _ in range(d)], [lo] * d, [hi] * d, "triangle"
+    if kind == "triangle_mixed_bounds":   # same family and the SAME peak, different bounds per dimension
+        m = rng.uniform(-1, 1)
+        a = [m - rng.uniform(0.2, 2) for _ in range(d)]
+        b = [m + rng.uniform(0.2, 2) for _ in range(d)]
+        return [("Triangle", float(m)) for _ in range(d)], a, b, "triangle"
     if kind == "normal_mixed":
         return [("Normal", float(rng.uniform(-2, 2)), float(rng.uniform(0.3, 3))) for _ in range(d)], [-np.inf] * d, [np.inf] * d, "normal"
     mu, sigma = rng.uniform(-2, 2), rng.uniform(0.3, 3)
@@ -81,6 +86,8 @@ def run_grid(case, res):
     an, bn = np.array(a, dtype=float), np.array(b, dtype=float)
     if len(set(infos)) > 1:
         res.count("mixed_parameters_same_bounds")
+    if len(set(infos)) == 1 and infos[0][0] == "Triangle" and len(set(zip(a, b))) > 1:
+        res.count("same_parameters_mixed_bounds")
     with contextlib.redirect_stdout(io.StringIO()):
         op = UncertaintyQuantification(ConstantValue(1.0), list(infos), an, bn)
         grid = G.GlobalTrapezoidalGridWeighted(an, bn, op, boundary=boundary)
